@@ -308,3 +308,14 @@ for _g in OP_GROUPS:
     _add(mk_missing_all_layouts(2, 3, _g))
     _add(mk_missing_all_layouts(1, 5, _g, tier='thorough'))
     _add(mk_missing_all_layouts(3, 3, _g, tier='thorough'))
+
+
+# ---------------------------------------------------------------- dtype-kind mixes: one-row reductions over every layout
+# (the condition builder is shared with C15; here the claim is the layout-independence half of it)
+from harness.C15 import mk_mixed as _mk_mixed  # noqa: E402
+
+for _op, _n in (('sum', 1), ('prod', 1), ('sum', 2)):
+    _c = _mk_mixed(_op, _n, 0)
+    _c.name = 'layouts_' + _c.name
+    _c.route = 'block-layout independence of ' + _c.route
+    _add(_c)
